@@ -14,12 +14,12 @@ OpsDef == <<
      [k |-> "sec", l |-> "", m |-> "", seg |-> 2, rs |-> {"LevelDBStore.db", "LevelDBStore.useProtobuf"}, ws |-> {}],
      [k |-> "rel", l |-> "LevelDBStore.mu", m |-> "", seg |-> 0, rs |-> {}, ws |-> {}],
      [k |-> "acq", l |-> "IRCServer.sessionsMu", m |-> "W", seg |-> 0, rs |-> {}, ws |-> {}],
-     [k |-> "sec", l |-> "", m |-> "", seg |-> 3, rs |-> {"IRCServer.ServerCreation", "IRCServer.ServerPrefix", "IRCServer.ServerPrefix[]", "IRCServer.channels", "IRCServer.nicks", "IRCServer.serverSessions", "IRCServer.serverSessions[]", "IRCServer.sessions", "IRCServer.svsholds", "Session.Channels", "Session.Created", "Session.Id", "Session.Server", "Session.auth", "Session.invitedTo", "channel.name", "channel.nicks", "ircCommand.Func", "ircCommand.MinParams", "ircserver.Commands", "ircserver.Commands[]", "ircserver.ErrSessionLimitReached", "ircserver.authOper", "ircserver.captchaChallengesSent", "ircserver.captchasFailed", "ircserver.captchasVerified", "ircserver.messagesProcessed", "ircserver.nickToLowerReplacer", "ircserver.validChannelRe", "ircserver.validNickRe", "modeCmd.Mode", "modeCmd.Param"}, ws |-> {"IRCServer.channels[]", "IRCServer.nicks[]", "IRCServer.sessions[]", "IRCServer.svsholds[]", "Session.AwayMsg", "Session.Channels[]", "Session.LastActivity", "Session.LastNonPing", "Session.LastSolvedCaptcha", "Session.Nick", "Session.Operator", "Session.Pass", "Session.Realname", "Session.RemoteAddr", "Session.Username", "Session.deleted", "Session.invitedTo[]", "Session.ircPrefix", "Session.lastClientMessageId", "Session.loggedIn", "Session.modes", "Session.svid", "channel.bans", "channel.bans[]", "channel.key", "channel.modes", "channel.nicks[]", "channel.nicks[][]", "channel.topic", "channel.topicNick", "channel.topicTime"}],
+     [k |-> "sec", l |-> "", m |-> "", seg |-> 3, rs |-> {"IRCServer.ServerCreation", "IRCServer.ServerCreation[]", "IRCServer.ServerPrefix", "IRCServer.ServerPrefix[]", "IRCServer.channels", "IRCServer.nicks", "IRCServer.serverSessions", "IRCServer.serverSessions[]", "IRCServer.sessions", "IRCServer.svsholds", "IRCServer.svsholds[][]", "Session.Channels", "Session.Created", "Session.Id", "Session.LastActivity[]", "Session.LastNonPing[]", "Session.LastSolvedCaptcha[]", "Session.Server", "Session.auth", "Session.invitedTo", "channel.name", "channel.nicks", "channel.topicTime[]", "ircCommand.Func", "ircCommand.MinParams", "ircserver.Commands", "ircserver.Commands[]", "ircserver.ErrSessionLimitReached", "ircserver.authOper", "ircserver.captchaChallengesSent", "ircserver.captchasFailed", "ircserver.captchasVerified", "ircserver.messagesProcessed", "ircserver.nickToLowerReplacer", "ircserver.validChannelRe", "ircserver.validNickRe", "modeCmd.Mode", "modeCmd.Param"}, ws |-> {"IRCServer.channels[]", "IRCServer.nicks[]", "IRCServer.sessions[]", "IRCServer.svsholds[]", "Session.AwayMsg", "Session.Channels[]", "Session.LastActivity", "Session.LastNonPing", "Session.LastSolvedCaptcha", "Session.Nick", "Session.Operator", "Session.Pass", "Session.Realname", "Session.RemoteAddr", "Session.Username", "Session.deleted", "Session.invitedTo[]", "Session.ircPrefix", "Session.lastClientMessageId", "Session.loggedIn", "Session.modes", "Session.svid", "channel.bans", "channel.bans[]", "channel.key", "channel.modes", "channel.nicks[]", "channel.nicks[][]", "channel.topic", "channel.topicNick", "channel.topicTime"}],
      [k |-> "acq", l |-> "IRCServer.lastProcessedMu", m |-> "R", seg |-> 0, rs |-> {}, ws |-> {}],
      [k |-> "sec", l |-> "", m |-> "", seg |-> 4, rs |-> {"IRCServer.lastProcessed", "ircserver.ErrNoSuchSession", "ircserver.ErrSessionNotYetSeen"}, ws |-> {}],
      [k |-> "rel", l |-> "IRCServer.lastProcessedMu", m |-> "", seg |-> 0, rs |-> {}, ws |-> {}],
      [k |-> "acq", l |-> "IRCServer.ConfigMu", m |-> "R", seg |-> 0, rs |-> {}, ws |-> {}],
-     [k |-> "sec", l |-> "", m |-> "", seg |-> 5, rs |-> {"IRCServer.Config", "IRCServer.Config[]", "IRCServer.ServerPrefix", "IRCServer.ServerPrefix[]", "IRCServer.channels", "IRCServer.channels[]", "IRCServer.nicks", "IRCServer.nicks[]", "Session.Channels", "Session.Channels[]", "Session.Id", "Session.LastActivity", "Session.Nick", "Session.Pass", "Session.Realname", "Session.Username", "Session.loggedIn", "Session.modes", "Session.svid", "channel.name", "channel.nicks", "channel.nicks[]", "channel.nicks[][]", "ircserver.nickToLowerReplacer"}, ws |-> {"IRCServer.serverSessions", "IRCServer.serverSessions[]", "Session.Server", "Session.ircPrefix"}],
+     [k |-> "sec", l |-> "", m |-> "", seg |-> 5, rs |-> {"IRCServer.Config", "IRCServer.Config[]", "IRCServer.ServerPrefix", "IRCServer.ServerPrefix[]", "IRCServer.channels", "IRCServer.channels[]", "IRCServer.nicks", "IRCServer.nicks[]", "Session.Channels", "Session.Channels[]", "Session.Id", "Session.LastActivity", "Session.LastActivity[]", "Session.Nick", "Session.Pass", "Session.Realname", "Session.Username", "Session.loggedIn", "Session.modes", "Session.svid", "channel.name", "channel.nicks", "channel.nicks[]", "channel.nicks[][]", "ircserver.nickToLowerReplacer"}, ws |-> {"IRCServer.serverSessions", "IRCServer.serverSessions[]", "Session.Server", "Session.ircPrefix"}],
      [k |-> "rel", l |-> "IRCServer.ConfigMu", m |-> "", seg |-> 0, rs |-> {}, ws |-> {}],
      [k |-> "rel", l |-> "IRCServer.sessionsMu", m |-> "", seg |-> 0, rs |-> {}, ws |-> {}],
      [k |-> "acq", l |-> "IRCServer.sessionsMu", m |-> "R", seg |-> 0, rs |-> {}, ws |-> {}],
@@ -51,14 +51,14 @@ OpsDef == <<
      [k |-> "acq", l |-> "FSM.sessionExpirationMu", m |-> "W", seg |-> 0, rs |-> {}, ws |-> {}],
      [k |-> "sec", l |-> "", m |-> "", seg |-> 14, rs |-> {}, ws |-> {"FSM.sessionExpirationDur"}],
      [k |-> "rel", l |-> "FSM.sessionExpirationMu", m |-> "", seg |-> 0, rs |-> {}, ws |-> {}]>>,
-   rall |-> {"FSM.ircstore", "FSM.store", "IRCServer.Config", "IRCServer.Config[]", "IRCServer.ServerCreation", "IRCServer.ServerPrefix", "IRCServer.ServerPrefix[]", "IRCServer.channels", "IRCServer.channels[]", "IRCServer.lastProcessed", "IRCServer.nicks", "IRCServer.nicks[]", "IRCServer.serverSessions", "IRCServer.serverSessions[]", "IRCServer.sessions", "IRCServer.sessions[]", "IRCServer.svsholds", "LevelDBStore.db", "LevelDBStore.useProtobuf", "OutputStream.db", "OutputStream.lastseen", "OutputStream.lastseen[]", "OutputStream.lastseen[][]", "OutputStream.messagesCache", "Session.Channels", "Session.Channels[]", "Session.Created", "Session.Id", "Session.LastActivity", "Session.Nick", "Session.Operator", "Session.Pass", "Session.Realname", "Session.RemoteAddr", "Session.Server", "Session.Username", "Session.auth", "Session.invitedTo", "Session.ircPrefix", "Session.loggedIn", "Session.modes", "Session.svid", "channel.name", "channel.nicks", "channel.nicks[]", "channel.nicks[][]", "ircCommand.Func", "ircCommand.MinParams", "ircserver.Commands", "ircserver.Commands[]", "ircserver.ErrNoSuchSession", "ircserver.ErrSessionLimitReached", "ircserver.ErrSessionNotYetSeen", "ircserver.authOper", "ircserver.captchaChallengesSent", "ircserver.captchasFailed", "ircserver.captchasVerified", "ircserver.messagesProcessed", "ircserver.nickToLowerReplacer", "ircserver.validChannelRe", "ircserver.validNickRe", "main.appliedMessages", "main.ircServer", "main.outputStream", "main.useProtobuf", "main.useProtobuf[]", "modeCmd.Mode", "modeCmd.Param"},
+   rall |-> {"FSM.ircstore", "FSM.store", "IRCServer.Config", "IRCServer.Config[]", "IRCServer.ServerCreation", "IRCServer.ServerCreation[]", "IRCServer.ServerPrefix", "IRCServer.ServerPrefix[]", "IRCServer.channels", "IRCServer.channels[]", "IRCServer.lastProcessed", "IRCServer.nicks", "IRCServer.nicks[]", "IRCServer.serverSessions", "IRCServer.serverSessions[]", "IRCServer.sessions", "IRCServer.sessions[]", "IRCServer.svsholds", "IRCServer.svsholds[][]", "LevelDBStore.db", "LevelDBStore.useProtobuf", "OutputStream.db", "OutputStream.lastseen", "OutputStream.lastseen[]", "OutputStream.lastseen[][]", "OutputStream.messagesCache", "Session.Channels", "Session.Channels[]", "Session.Created", "Session.Id", "Session.LastActivity", "Session.LastActivity[]", "Session.LastNonPing[]", "Session.LastSolvedCaptcha[]", "Session.Nick", "Session.Operator", "Session.Pass", "Session.Realname", "Session.RemoteAddr", "Session.Server", "Session.Username", "Session.auth", "Session.invitedTo", "Session.ircPrefix", "Session.loggedIn", "Session.modes", "Session.svid", "channel.name", "channel.nicks", "channel.nicks[]", "channel.nicks[][]", "channel.topicTime[]", "ircCommand.Func", "ircCommand.MinParams", "ircserver.Commands", "ircserver.Commands[]", "ircserver.ErrNoSuchSession", "ircserver.ErrSessionLimitReached", "ircserver.ErrSessionNotYetSeen", "ircserver.authOper", "ircserver.captchaChallengesSent", "ircserver.captchasFailed", "ircserver.captchasVerified", "ircserver.messagesProcessed", "ircserver.nickToLowerReplacer", "ircserver.validChannelRe", "ircserver.validNickRe", "main.appliedMessages", "main.ircServer", "main.outputStream", "main.useProtobuf", "main.useProtobuf[]", "modeCmd.Mode", "modeCmd.Param"},
    wall |-> {"FSM.sessionExpirationDur", "IRCServer.Config", "IRCServer.Config[]", "IRCServer.channels[]", "IRCServer.lastProcessed", "IRCServer.nicks[]", "IRCServer.serverSessions", "IRCServer.serverSessions[]", "IRCServer.sessions[]", "IRCServer.svsholds[]", "OutputStream.batch", "OutputStream.lastseen", "OutputStream.messagesCache[]", "Session.AwayMsg", "Session.Channels[]", "Session.LastActivity", "Session.LastNonPing", "Session.LastSolvedCaptcha", "Session.Nick", "Session.Operator", "Session.Pass", "Session.Realname", "Session.RemoteAddr", "Session.Server", "Session.Username", "Session.deleted", "Session.invitedTo[]", "Session.ircPrefix", "Session.lastClientMessageId", "Session.loggedIn", "Session.modes", "Session.svid", "channel.bans", "channel.bans[]", "channel.key", "channel.modes", "channel.nicks[]", "channel.nicks[][]", "channel.topic", "channel.topicNick", "channel.topicTime"}],
   \* 2  (*main.FSM).Restore
   [name |-> "FSM.Restore", threads |-> {"fsm"}, steps |-> <<
      [k |-> "acq", l |-> "FSM.restoreMu", m |-> "W", seg |-> 0, rs |-> {}, ws |-> {}],
-     [k |-> "sec", l |-> "", m |-> "", seg |-> 1, rs |-> {"(*raftstore.LevelDBStore).ConvertToProto.start", "FSM.ReplaceState", "FSM.lastSnapshotState", "FSM.store", "OutputStream.db", "OutputStream.dirname", "main.appliedMessages", "main.ircServer", "main.network", "main.network[]", "main.raftDir", "main.raftDir[]", "main.useProtobuf", "main.useProtobuf[]"}, ws |-> {"FSM.ircstore", "FSM.lastSnapshotState[]", "main.ircStore", "main.outputStream"}],
+     [k |-> "sec", l |-> "", m |-> "", seg |-> 1, rs |-> {"(*raftstore.LevelDBStore).ConvertToProto.start", "(*raftstore.LevelDBStore).ConvertToProto.start[]", "FSM.ReplaceState", "FSM.lastSnapshotState", "FSM.store", "OutputStream.db", "OutputStream.dirname", "main.appliedMessages", "main.ircServer", "main.network", "main.network[]", "main.raftDir", "main.raftDir[]", "main.useProtobuf", "main.useProtobuf[]"}, ws |-> {"FSM.ircstore", "FSM.lastSnapshotState[]", "main.ircStore", "main.outputStream"}],
      [k |-> "acq", l |-> "LevelDBStore.mu", m |-> "W", seg |-> 0, rs |-> {}, ws |-> {}],
-     [k |-> "sec", l |-> "", m |-> "", seg |-> 2, rs |-> {"(*raftstore.LevelDBStore).ConvertToProto.start", "LevelDBStore.dir", "LevelDBStore.useProtobuf"}, ws |-> {"LevelDBStore.db"}],
+     [k |-> "sec", l |-> "", m |-> "", seg |-> 2, rs |-> {"(*raftstore.LevelDBStore).ConvertToProto.start", "(*raftstore.LevelDBStore).ConvertToProto.start[]", "LevelDBStore.dir", "LevelDBStore.useProtobuf"}, ws |-> {"LevelDBStore.db"}],
      [k |-> "rel", l |-> "LevelDBStore.mu", m |-> "", seg |-> 0, rs |-> {}, ws |-> {}],
      [k |-> "acq", l |-> "main.ircServerMu", m |-> "W", seg |-> 0, rs |-> {}, ws |-> {}],
      [k |-> "sec", l |-> "", m |-> "", seg |-> 3, rs |-> {}, ws |-> {"main.ircServer"}],
@@ -81,12 +81,12 @@ OpsDef == <<
      [k |-> "sec", l |-> "", m |-> "", seg |-> 8, rs |-> {}, ws |-> {"FSM.sessionExpirationDur"}],
      [k |-> "rel", l |-> "FSM.sessionExpirationMu", m |-> "", seg |-> 0, rs |-> {}, ws |-> {}],
      [k |-> "acq", l |-> "IRCServer.sessionsMu", m |-> "W", seg |-> 0, rs |-> {}, ws |-> {}],
-     [k |-> "sec", l |-> "", m |-> "", seg |-> 9, rs |-> {"IRCServer.ServerCreation", "IRCServer.ServerPrefix", "IRCServer.ServerPrefix[]", "IRCServer.channels", "IRCServer.nicks", "IRCServer.serverSessions", "IRCServer.serverSessions[]", "IRCServer.sessions", "IRCServer.svsholds", "Session.Channels", "Session.Created", "Session.Id", "Session.Server", "Session.auth", "Session.invitedTo", "channel.name", "channel.nicks", "ircCommand.Func", "ircCommand.MinParams", "ircserver.Commands", "ircserver.Commands[]", "ircserver.ErrSessionLimitReached", "ircserver.authOper", "ircserver.captchaChallengesSent", "ircserver.captchasFailed", "ircserver.captchasVerified", "ircserver.messagesProcessed", "ircserver.nickToLowerReplacer", "ircserver.validChannelRe", "ircserver.validNickRe", "modeCmd.Mode", "modeCmd.Param"}, ws |-> {"IRCServer.channels[]", "IRCServer.nicks[]", "IRCServer.sessions[]", "IRCServer.svsholds[]", "Session.AwayMsg", "Session.Channels[]", "Session.LastActivity", "Session.LastNonPing", "Session.LastSolvedCaptcha", "Session.Nick", "Session.Operator", "Session.Pass", "Session.Realname", "Session.RemoteAddr", "Session.Username", "Session.deleted", "Session.invitedTo[]", "Session.ircPrefix", "Session.lastClientMessageId", "Session.loggedIn", "Session.modes", "Session.svid", "channel.bans", "channel.bans[]", "channel.key", "channel.modes", "channel.nicks[]", "channel.nicks[][]", "channel.topic", "channel.topicNick", "channel.topicTime"}],
+     [k |-> "sec", l |-> "", m |-> "", seg |-> 9, rs |-> {"IRCServer.ServerCreation", "IRCServer.ServerCreation[]", "IRCServer.ServerPrefix", "IRCServer.ServerPrefix[]", "IRCServer.channels", "IRCServer.nicks", "IRCServer.serverSessions", "IRCServer.serverSessions[]", "IRCServer.sessions", "IRCServer.svsholds", "IRCServer.svsholds[][]", "Session.Channels", "Session.Created", "Session.Id", "Session.LastActivity[]", "Session.LastNonPing[]", "Session.LastSolvedCaptcha[]", "Session.Server", "Session.auth", "Session.invitedTo", "channel.name", "channel.nicks", "channel.topicTime[]", "ircCommand.Func", "ircCommand.MinParams", "ircserver.Commands", "ircserver.Commands[]", "ircserver.ErrSessionLimitReached", "ircserver.authOper", "ircserver.captchaChallengesSent", "ircserver.captchasFailed", "ircserver.captchasVerified", "ircserver.messagesProcessed", "ircserver.nickToLowerReplacer", "ircserver.validChannelRe", "ircserver.validNickRe", "modeCmd.Mode", "modeCmd.Param"}, ws |-> {"IRCServer.channels[]", "IRCServer.nicks[]", "IRCServer.sessions[]", "IRCServer.svsholds[]", "Session.AwayMsg", "Session.Channels[]", "Session.LastActivity", "Session.LastNonPing", "Session.LastSolvedCaptcha", "Session.Nick", "Session.Operator", "Session.Pass", "Session.Realname", "Session.RemoteAddr", "Session.Username", "Session.deleted", "Session.invitedTo[]", "Session.ircPrefix", "Session.lastClientMessageId", "Session.loggedIn", "Session.modes", "Session.svid", "channel.bans", "channel.bans[]", "channel.key", "channel.modes", "channel.nicks[]", "channel.nicks[][]", "channel.topic", "channel.topicNick", "channel.topicTime"}],
      [k |-> "acq", l |-> "IRCServer.lastProcessedMu", m |-> "R", seg |-> 0, rs |-> {}, ws |-> {}],
      [k |-> "sec", l |-> "", m |-> "", seg |-> 10, rs |-> {"IRCServer.lastProcessed", "ircserver.ErrNoSuchSession", "ircserver.ErrSessionNotYetSeen"}, ws |-> {}],
      [k |-> "rel", l |-> "IRCServer.lastProcessedMu", m |-> "", seg |-> 0, rs |-> {}, ws |-> {}],
      [k |-> "acq", l |-> "IRCServer.ConfigMu", m |-> "R", seg |-> 0, rs |-> {}, ws |-> {}],
-     [k |-> "sec", l |-> "", m |-> "", seg |-> 11, rs |-> {"IRCServer.Config", "IRCServer.Config[]", "IRCServer.ServerPrefix", "IRCServer.ServerPrefix[]", "IRCServer.channels", "IRCServer.channels[]", "IRCServer.nicks", "IRCServer.nicks[]", "Session.Channels", "Session.Channels[]", "Session.Id", "Session.LastActivity", "Session.Nick", "Session.Pass", "Session.Realname", "Session.Username", "Session.loggedIn", "Session.modes", "Session.svid", "channel.name", "channel.nicks", "channel.nicks[]", "channel.nicks[][]", "ircserver.nickToLowerReplacer"}, ws |-> {"IRCServer.serverSessions", "IRCServer.serverSessions[]", "Session.Server", "Session.ircPrefix"}],
+     [k |-> "sec", l |-> "", m |-> "", seg |-> 11, rs |-> {"IRCServer.Config", "IRCServer.Config[]", "IRCServer.ServerPrefix", "IRCServer.ServerPrefix[]", "IRCServer.channels", "IRCServer.channels[]", "IRCServer.nicks", "IRCServer.nicks[]", "Session.Channels", "Session.Channels[]", "Session.Id", "Session.LastActivity", "Session.LastActivity[]", "Session.Nick", "Session.Pass", "Session.Realname", "Session.Username", "Session.loggedIn", "Session.modes", "Session.svid", "channel.name", "channel.nicks", "channel.nicks[]", "channel.nicks[][]", "ircserver.nickToLowerReplacer"}, ws |-> {"IRCServer.serverSessions", "IRCServer.serverSessions[]", "Session.Server", "Session.ircPrefix"}],
      [k |-> "rel", l |-> "IRCServer.ConfigMu", m |-> "", seg |-> 0, rs |-> {}, ws |-> {}],
      [k |-> "rel", l |-> "IRCServer.sessionsMu", m |-> "", seg |-> 0, rs |-> {}, ws |-> {}],
      [k |-> "acq", l |-> "IRCServer.sessionsMu", m |-> "R", seg |-> 0, rs |-> {}, ws |-> {}],
@@ -110,7 +110,7 @@ OpsDef == <<
      [k |-> "rel", l |-> "OutputStream.cacheMu", m |-> "", seg |-> 0, rs |-> {}, ws |-> {}],
      [k |-> "rel", l |-> "OutputStream.messagesMu", m |-> "", seg |-> 0, rs |-> {}, ws |-> {}],
      [k |-> "rel", l |-> "FSM.restoreMu", m |-> "", seg |-> 0, rs |-> {}, ws |-> {}]>>,
-   rall |-> {"(*raftstore.LevelDBStore).ConvertToProto.start", "FSM.ReplaceState", "FSM.lastSnapshotState", "FSM.store", "IRCServer.Config", "IRCServer.Config[]", "IRCServer.ServerCreation", "IRCServer.ServerPrefix", "IRCServer.ServerPrefix[]", "IRCServer.channels", "IRCServer.channels[]", "IRCServer.lastProcessed", "IRCServer.nicks", "IRCServer.nicks[]", "IRCServer.serverSessions", "IRCServer.serverSessions[]", "IRCServer.sessions", "IRCServer.sessions[]", "IRCServer.svsholds", "LevelDBStore.dir", "LevelDBStore.useProtobuf", "OutputStream.db", "OutputStream.dirname", "OutputStream.lastseen", "OutputStream.lastseen[]", "OutputStream.lastseen[][]", "OutputStream.messagesCache", "Session.Channels", "Session.Channels[]", "Session.Created", "Session.Id", "Session.LastActivity", "Session.Nick", "Session.Operator", "Session.Pass", "Session.Realname", "Session.RemoteAddr", "Session.Server", "Session.Username", "Session.auth", "Session.invitedTo", "Session.ircPrefix", "Session.loggedIn", "Session.modes", "Session.svid", "channel.name", "channel.nicks", "channel.nicks[]", "channel.nicks[][]", "ircCommand.Func", "ircCommand.MinParams", "ircserver.Commands", "ircserver.Commands[]", "ircserver.ErrNoSuchSession", "ircserver.ErrSessionLimitReached", "ircserver.ErrSessionNotYetSeen", "ircserver.authOper", "ircserver.captchaChallengesSent", "ircserver.captchasFailed", "ircserver.captchasVerified", "ircserver.messagesProcessed", "ircserver.nickToLowerReplacer", "ircserver.validChannelRe", "ircserver.validNickRe", "main.appliedMessages", "main.ircServer", "main.network", "main.network[]", "main.raftDir", "main.raftDir[]", "main.useProtobuf", "main.useProtobuf[]", "modeCmd.Mode", "modeCmd.Param"},
+   rall |-> {"(*raftstore.LevelDBStore).ConvertToProto.start", "(*raftstore.LevelDBStore).ConvertToProto.start[]", "FSM.ReplaceState", "FSM.lastSnapshotState", "FSM.store", "IRCServer.Config", "IRCServer.Config[]", "IRCServer.ServerCreation", "IRCServer.ServerCreation[]", "IRCServer.ServerPrefix", "IRCServer.ServerPrefix[]", "IRCServer.channels", "IRCServer.channels[]", "IRCServer.lastProcessed", "IRCServer.nicks", "IRCServer.nicks[]", "IRCServer.serverSessions", "IRCServer.serverSessions[]", "IRCServer.sessions", "IRCServer.sessions[]", "IRCServer.svsholds", "IRCServer.svsholds[][]", "LevelDBStore.dir", "LevelDBStore.useProtobuf", "OutputStream.db", "OutputStream.dirname", "OutputStream.lastseen", "OutputStream.lastseen[]", "OutputStream.lastseen[][]", "OutputStream.messagesCache", "Session.Channels", "Session.Channels[]", "Session.Created", "Session.Id", "Session.LastActivity", "Session.LastActivity[]", "Session.LastNonPing[]", "Session.LastSolvedCaptcha[]", "Session.Nick", "Session.Operator", "Session.Pass", "Session.Realname", "Session.RemoteAddr", "Session.Server", "Session.Username", "Session.auth", "Session.invitedTo", "Session.ircPrefix", "Session.loggedIn", "Session.modes", "Session.svid", "channel.name", "channel.nicks", "channel.nicks[]", "channel.nicks[][]", "channel.topicTime[]", "ircCommand.Func", "ircCommand.MinParams", "ircserver.Commands", "ircserver.Commands[]", "ircserver.ErrNoSuchSession", "ircserver.ErrSessionLimitReached", "ircserver.ErrSessionNotYetSeen", "ircserver.authOper", "ircserver.captchaChallengesSent", "ircserver.captchasFailed", "ircserver.captchasVerified", "ircserver.messagesProcessed", "ircserver.nickToLowerReplacer", "ircserver.validChannelRe", "ircserver.validNickRe", "main.appliedMessages", "main.ircServer", "main.network", "main.network[]", "main.raftDir", "main.raftDir[]", "main.useProtobuf", "main.useProtobuf[]", "modeCmd.Mode", "modeCmd.Param"},
    wall |-> {"FSM.ircstore", "FSM.lastSnapshotState[]", "FSM.sessionExpirationDur", "HTTP.ircServerUnlocked", "HTTP.ircStoreUnlocked", "HTTP.outputUnlocked", "IRCServer.Config", "IRCServer.Config[]", "IRCServer.channels[]", "IRCServer.lastProcessed", "IRCServer.nicks[]", "IRCServer.serverSessions", "IRCServer.serverSessions[]", "IRCServer.sessions[]", "IRCServer.svsholds[]", "LevelDBStore.db", "OutputStream.batch", "OutputStream.lastseen", "OutputStream.messagesCache[]", "Session.AwayMsg", "Session.Channels[]", "Session.LastActivity", "Session.LastNonPing", "Session.LastSolvedCaptcha", "Session.Nick", "Session.Operator", "Session.Pass", "Session.Realname", "Session.RemoteAddr", "Session.Server", "Session.Username", "Session.deleted", "Session.invitedTo[]", "Session.ircPrefix", "Session.lastClientMessageId", "Session.loggedIn", "Session.modes", "Session.svid", "channel.bans", "channel.bans[]", "channel.key", "channel.modes", "channel.nicks[]", "channel.nicks[][]", "channel.topic", "channel.topicNick", "channel.topicTime", "main.ircServer", "main.ircStore", "main.outputStream"}],
   \* 3  (*main.FSM).Snapshot
   [name |-> "FSM.Snapshot", threads |-> {"fsm"}, steps |-> <<
@@ -213,18 +213,18 @@ OpsDef == <<
      [k |-> "acq", l |-> "IRCServer.ConfigMu", m |-> "R", seg |-> 0, rs |-> {}, ws |-> {}],
      [k |-> "sec", l |-> "", m |-> "", seg |-> 3, rs |-> {"IRCServer.Config"}, ws |-> {}],
      [k |-> "acq", l |-> "IRCServer.sessionsMu", m |-> "R", seg |-> 0, rs |-> {}, ws |-> {}],
-     [k |-> "sec", l |-> "", m |-> "", seg |-> 4, rs |-> {"IRCServer.sessions", "IRCServer.sessions[]", "Session.LastActivity"}, ws |-> {}],
+     [k |-> "sec", l |-> "", m |-> "", seg |-> 4, rs |-> {"IRCServer.sessions", "IRCServer.sessions[]", "Session.LastActivity", "Session.LastActivity[]"}, ws |-> {}],
      [k |-> "rel", l |-> "IRCServer.sessionsMu", m |-> "", seg |-> 0, rs |-> {}, ws |-> {}],
      [k |-> "rel", l |-> "IRCServer.ConfigMu", m |-> "", seg |-> 0, rs |-> {}, ws |-> {}]>>,
-   rall |-> {"IRCServer.Config", "IRCServer.sessions", "IRCServer.sessions[]", "Session.LastActivity", "main.ircServer", "main.node"},
+   rall |-> {"IRCServer.Config", "IRCServer.sessions", "IRCServer.sessions[]", "Session.LastActivity", "Session.LastActivity[]", "main.ircServer", "main.node"},
    wall |-> {}],
   \* 12  (*api.HTTP).DispatchPrivate
   [name |-> "HTTP.DispatchPrivate", threads |-> {"http"}, steps |-> <<
      [k |-> "acq", l |-> "HTTP.throttleMu", m |-> "W", seg |-> 0, rs |-> {}, ws |-> {}],
-     [k |-> "sec", l |-> "", m |-> "", seg |-> 1, rs |-> {}, ws |-> {"HTTP.lastWrongPassword", "HTTP.throttlingExponent"}],
+     [k |-> "sec", l |-> "", m |-> "", seg |-> 1, rs |-> {"HTTP.lastWrongPassword[]"}, ws |-> {"HTTP.lastWrongPassword", "HTTP.throttlingExponent"}],
      [k |-> "rel", l |-> "HTTP.throttleMu", m |-> "", seg |-> 0, rs |-> {}, ws |-> {}],
      [k |-> "sec", l |-> "", m |-> "", seg |-> 2, rs |-> {"HTTP.networkPassword", "HTTP.transport"}, ws |-> {}]>>,
-   rall |-> {"HTTP.networkPassword", "HTTP.transport"},
+   rall |-> {"HTTP.lastWrongPassword[]", "HTTP.networkPassword", "HTTP.transport"},
    wall |-> {"HTTP.lastWrongPassword", "HTTP.throttlingExponent"}],
   \* 13  (*api.HTTP).DispatchPrivateWithoutAuth
   [name |-> "HTTP.DispatchPrivateWithoutAuth", threads |-> {"http"}, steps |-> <<
@@ -420,7 +420,7 @@ OpsDef == <<
      [k |-> "acq", l |-> "IRCServer.ConfigMu", m |-> "R", seg |-> 0, rs |-> {}, ws |-> {}],
      [k |-> "sec", l |-> "", m |-> "", seg |-> 2, rs |-> {"IRCServer.Config", "IRCServer.Config[]"}, ws |-> {}],
      [k |-> "acq", l |-> "IRCServer.sessionsMu", m |-> "W", seg |-> 0, rs |-> {}, ws |-> {}],
-     [k |-> "sec", l |-> "", m |-> "", seg |-> 3, rs |-> {"IRCServer.sessions", "IRCServer.sessions[]", "Session.LastActivity", "Session.Server"}, ws |-> {"Session.throttlingExponent"}],
+     [k |-> "sec", l |-> "", m |-> "", seg |-> 3, rs |-> {"IRCServer.sessions", "IRCServer.sessions[]", "Session.LastActivity", "Session.LastActivity[]", "Session.Server"}, ws |-> {"Session.throttlingExponent"}],
      [k |-> "rel", l |-> "IRCServer.sessionsMu", m |-> "", seg |-> 0, rs |-> {}, ws |-> {}],
      [k |-> "rel", l |-> "IRCServer.ConfigMu", m |-> "", seg |-> 0, rs |-> {}, ws |-> {}],
      [k |-> "acq", l |-> "IRCServer.sessionsMu", m |-> "R", seg |-> 0, rs |-> {}, ws |-> {}],
@@ -433,7 +433,7 @@ OpsDef == <<
      [k |-> "acq", l |-> "api.nodeProxiesMu", m |-> "W", seg |-> 0, rs |-> {}, ws |-> {}],
      [k |-> "sec", l |-> "", m |-> "", seg |-> 7, rs |-> {"api.nodeProxies"}, ws |-> {"api.nodeProxies[]"}],
      [k |-> "rel", l |-> "api.nodeProxiesMu", m |-> "", seg |-> 0, rs |-> {}, ws |-> {}]>>,
-   rall |-> {"HTTP.ircServerUnlocked", "HTTP.raftNode", "HTTP.useProtobuf", "IRCServer.Config", "IRCServer.Config[]", "IRCServer.sessions", "IRCServer.sessions[]", "Session.LastActivity", "Session.Server", "Session.lastClientMessageId", "api.nodeProxies", "api.nodeProxies[]"},
+   rall |-> {"HTTP.ircServerUnlocked", "HTTP.raftNode", "HTTP.useProtobuf", "IRCServer.Config", "IRCServer.Config[]", "IRCServer.sessions", "IRCServer.sessions[]", "Session.LastActivity", "Session.LastActivity[]", "Session.Server", "Session.lastClientMessageId", "api.nodeProxies", "api.nodeProxies[]"},
    wall |-> {"Session.throttlingExponent", "api.nodeProxies[]"}],
   \* 27  (*api.HTTP).handleQuit
   [name |-> "HTTP.handleQuit", threads |-> {"http"}, steps |-> <<
@@ -452,22 +452,19 @@ OpsDef == <<
      [k |-> "sec", l |-> "", m |-> "", seg |-> 2, rs |-> {"HTTP.ircServerUnlocked"}, ws |-> {}],
      [k |-> "rel", l |-> "HTTP.mu", m |-> "", seg |-> 0, rs |-> {}, ws |-> {}],
      [k |-> "acq", l |-> "IRCServer.ConfigMu", m |-> "R", seg |-> 0, rs |-> {}, ws |-> {}],
-     [k |-> "acq", l |-> "HTTP.mu", m |-> "W", seg |-> 0, rs |-> {}, ws |-> {}],
-     [k |-> "sec", l |-> "", m |-> "", seg |-> 3, rs |-> {"HTTP.ircServerUnlocked"}, ws |-> {}],
-     [k |-> "rel", l |-> "HTTP.mu", m |-> "", seg |-> 0, rs |-> {}, ws |-> {}],
-     [k |-> "sec", l |-> "", m |-> "", seg |-> 4, rs |-> {"HTTP.peerAddr", "HTTP.raftNode", "IRCServer.Config", "IRCServer.Config[]", "api.templates"}, ws |-> {}],
+     [k |-> "sec", l |-> "", m |-> "", seg |-> 3, rs |-> {"HTTP.peerAddr", "HTTP.raftNode", "IRCServer.Config", "IRCServer.Config[]", "api.templates"}, ws |-> {}],
      [k |-> "acq", l |-> "IRCServer.sessionsMu", m |-> "R", seg |-> 0, rs |-> {}, ws |-> {}],
-     [k |-> "sec", l |-> "", m |-> "", seg |-> 5, rs |-> {"IRCServer.sessions", "IRCServer.sessions[]", "Session.AwayMsg", "Session.Channels", "Session.Channels[]", "Session.Created", "Session.Id", "Session.LastActivity", "Session.LastNonPing", "Session.LastSolvedCaptcha", "Session.Nick", "Session.Operator", "Session.Pass", "Session.Realname", "Session.RemoteAddr", "Session.Server", "Session.Username", "Session.auth", "Session.deleted", "Session.invitedTo", "Session.invitedTo[]", "Session.ircPrefix", "Session.lastClientMessageId", "Session.loggedIn", "Session.modes", "Session.svid", "Session.throttlingExponent"}, ws |-> {}],
+     [k |-> "sec", l |-> "", m |-> "", seg |-> 4, rs |-> {"IRCServer.sessions", "IRCServer.sessions[]", "Session.AwayMsg", "Session.Channels", "Session.Channels[]", "Session.Created", "Session.Id", "Session.LastActivity", "Session.LastNonPing", "Session.LastSolvedCaptcha", "Session.Nick", "Session.Operator", "Session.Pass", "Session.Realname", "Session.RemoteAddr", "Session.Server", "Session.Username", "Session.auth", "Session.deleted", "Session.invitedTo", "Session.invitedTo[]", "Session.ircPrefix", "Session.lastClientMessageId", "Session.loggedIn", "Session.modes", "Session.svid", "Session.throttlingExponent"}, ws |-> {}],
      [k |-> "rel", l |-> "IRCServer.sessionsMu", m |-> "", seg |-> 0, rs |-> {}, ws |-> {}],
      [k |-> "acq", l |-> "HTTP.getMessagesRequestsMu", m |-> "R", seg |-> 0, rs |-> {}, ws |-> {}],
-     [k |-> "sec", l |-> "", m |-> "", seg |-> 6, rs |-> {"HTTP.getMessagesRequests", "HTTP.getMessagesRequests[]"}, ws |-> {}],
+     [k |-> "sec", l |-> "", m |-> "", seg |-> 5, rs |-> {"HTTP.getMessagesRequests", "HTTP.getMessagesRequests[]"}, ws |-> {}],
      [k |-> "rel", l |-> "HTTP.getMessagesRequestsMu", m |-> "", seg |-> 0, rs |-> {}, ws |-> {}],
      [k |-> "rel", l |-> "IRCServer.ConfigMu", m |-> "", seg |-> 0, rs |-> {}, ws |-> {}]>>,
    rall |-> {"HTTP.getMessagesRequests", "HTTP.getMessagesRequests[]", "HTTP.ircServerUnlocked", "HTTP.peerAddr", "HTTP.raftNode", "IRCServer.Config", "IRCServer.Config[]", "IRCServer.sessions", "IRCServer.sessions[]", "Session.AwayMsg", "Session.Channels", "Session.Channels[]", "Session.Created", "Session.Id", "Session.LastActivity", "Session.LastNonPing", "Session.LastSolvedCaptcha", "Session.Nick", "Session.Operator", "Session.Pass", "Session.Realname", "Session.RemoteAddr", "Session.Server", "Session.Username", "Session.auth", "Session.deleted", "Session.invitedTo", "Session.invitedTo[]", "Session.ircPrefix", "Session.lastClientMessageId", "Session.loggedIn", "Session.modes", "Session.svid", "Session.throttlingExponent", "api.executablehash", "api.templates"},
    wall |-> {}],
   \* 30  (*api.HTTP).handleStatusGetMessage
   [name |-> "HTTP.handleStatusGetMessage", threads |-> {"http"}, steps |-> <<
-     [k |-> "sec", l |-> "", m |-> "", seg |-> 1, rs |-> {"HTTP.peerAddr", "api.templates"}, ws |-> {}],
+     [k |-> "sec", l |-> "", m |-> "", seg |-> 1, rs |-> {"HTTP.getMessagesRequests[][]", "HTTP.peerAddr", "api.templates"}, ws |-> {}],
      [k |-> "acq", l |-> "HTTP.getMessagesRequestsMu", m |-> "R", seg |-> 0, rs |-> {}, ws |-> {}],
      [k |-> "sec", l |-> "", m |-> "", seg |-> 2, rs |-> {"HTTP.getMessagesRequests", "HTTP.getMessagesRequests[]"}, ws |-> {}],
      [k |-> "rel", l |-> "HTTP.getMessagesRequestsMu", m |-> "", seg |-> 0, rs |-> {}, ws |-> {}],
@@ -477,7 +474,7 @@ OpsDef == <<
      [k |-> "acq", l |-> "IRCServer.sessionsMu", m |-> "R", seg |-> 0, rs |-> {}, ws |-> {}],
      [k |-> "sec", l |-> "", m |-> "", seg |-> 4, rs |-> {"IRCServer.sessions", "IRCServer.sessions[]", "Session.AwayMsg", "Session.Channels", "Session.Channels[]", "Session.Created", "Session.Id", "Session.LastActivity", "Session.LastNonPing", "Session.LastSolvedCaptcha", "Session.Nick", "Session.Operator", "Session.Pass", "Session.Realname", "Session.RemoteAddr", "Session.Server", "Session.Username", "Session.auth", "Session.deleted", "Session.invitedTo", "Session.invitedTo[]", "Session.ircPrefix", "Session.lastClientMessageId", "Session.loggedIn", "Session.modes", "Session.svid", "Session.throttlingExponent"}, ws |-> {}],
      [k |-> "rel", l |-> "IRCServer.sessionsMu", m |-> "", seg |-> 0, rs |-> {}, ws |-> {}]>>,
-   rall |-> {"HTTP.getMessagesRequests", "HTTP.getMessagesRequests[]", "HTTP.ircServerUnlocked", "HTTP.peerAddr", "IRCServer.sessions", "IRCServer.sessions[]", "Session.AwayMsg", "Session.Channels", "Session.Channels[]", "Session.Created", "Session.Id", "Session.LastActivity", "Session.LastNonPing", "Session.LastSolvedCaptcha", "Session.Nick", "Session.Operator", "Session.Pass", "Session.Realname", "Session.RemoteAddr", "Session.Server", "Session.Username", "Session.auth", "Session.deleted", "Session.invitedTo", "Session.invitedTo[]", "Session.ircPrefix", "Session.lastClientMessageId", "Session.loggedIn", "Session.modes", "Session.svid", "Session.throttlingExponent", "api.templates"},
+   rall |-> {"HTTP.getMessagesRequests", "HTTP.getMessagesRequests[]", "HTTP.getMessagesRequests[][]", "HTTP.ircServerUnlocked", "HTTP.peerAddr", "IRCServer.sessions", "IRCServer.sessions[]", "Session.AwayMsg", "Session.Channels", "Session.Channels[]", "Session.Created", "Session.Id", "Session.LastActivity", "Session.LastNonPing", "Session.LastSolvedCaptcha", "Session.Nick", "Session.Operator", "Session.Pass", "Session.Realname", "Session.RemoteAddr", "Session.Server", "Session.Username", "Session.auth", "Session.deleted", "Session.invitedTo", "Session.invitedTo[]", "Session.ircPrefix", "Session.lastClientMessageId", "Session.loggedIn", "Session.modes", "Session.svid", "Session.throttlingExponent", "api.templates"},
    wall |-> {}],
   \* 31  (*api.HTTP).handleStatusIrclog
   [name |-> "HTTP.handleStatusIrclog", threads |-> {"http"}, steps |-> <<
@@ -518,7 +515,7 @@ OpsDef == <<
      [k |-> "acq", l |-> "IRCServer.sessionsMu", m |-> "R", seg |-> 0, rs |-> {}, ws |-> {}],
      [k |-> "acq", l |-> "IRCServer.ConfigMu", m |-> "R", seg |-> 0, rs |-> {}, ws |-> {}],
      [k |-> "acq", l |-> "IRCServer.lastProcessedMu", m |-> "R", seg |-> 0, rs |-> {}, ws |-> {}],
-     [k |-> "sec", l |-> "", m |-> "", seg |-> 2, rs |-> {"IRCServer.Config", "IRCServer.Config[]", "IRCServer.channels", "IRCServer.channels[]", "IRCServer.lastProcessed", "IRCServer.sessions", "IRCServer.sessions[]", "IRCServer.svsholds", "IRCServer.svsholds[]", "Session.AwayMsg", "Session.Channels", "Session.Channels[]", "Session.Created", "Session.LastActivity", "Session.LastNonPing", "Session.LastSolvedCaptcha", "Session.Nick", "Session.Operator", "Session.Pass", "Session.Realname", "Session.RemoteAddr", "Session.Server", "Session.Username", "Session.auth", "Session.invitedTo", "Session.invitedTo[]", "Session.ircPrefix", "Session.lastClientMessageId", "Session.loggedIn", "Session.modes", "Session.svid", "Session.throttlingExponent", "channel.bans", "channel.bans[]", "channel.key", "channel.modes", "channel.name", "channel.nicks", "channel.nicks[]", "channel.nicks[][]", "channel.topic", "channel.topicNick", "channel.topicTime"}, ws |-> {}],
+     [k |-> "sec", l |-> "", m |-> "", seg |-> 2, rs |-> {"IRCServer.Config", "IRCServer.Config[]", "IRCServer.channels", "IRCServer.channels[]", "IRCServer.lastProcessed", "IRCServer.sessions", "IRCServer.sessions[]", "IRCServer.svsholds", "IRCServer.svsholds[]", "IRCServer.svsholds[][]", "Session.AwayMsg", "Session.Channels", "Session.Channels[]", "Session.Created", "Session.LastActivity", "Session.LastActivity[]", "Session.LastNonPing", "Session.LastNonPing[]", "Session.LastSolvedCaptcha", "Session.LastSolvedCaptcha[]", "Session.Nick", "Session.Operator", "Session.Pass", "Session.Realname", "Session.RemoteAddr", "Session.Server", "Session.Username", "Session.auth", "Session.invitedTo", "Session.invitedTo[]", "Session.ircPrefix", "Session.lastClientMessageId", "Session.loggedIn", "Session.modes", "Session.svid", "Session.throttlingExponent", "channel.bans", "channel.bans[]", "channel.key", "channel.modes", "channel.name", "channel.nicks", "channel.nicks[]", "channel.nicks[][]", "channel.topic", "channel.topicNick", "channel.topicTime", "channel.topicTime[]"}, ws |-> {}],
      [k |-> "rel", l |-> "IRCServer.lastProcessedMu", m |-> "", seg |-> 0, rs |-> {}, ws |-> {}],
      [k |-> "rel", l |-> "IRCServer.ConfigMu", m |-> "", seg |-> 0, rs |-> {}, ws |-> {}],
      [k |-> "rel", l |-> "IRCServer.sessionsMu", m |-> "", seg |-> 0, rs |-> {}, ws |-> {}],
@@ -529,7 +526,7 @@ OpsDef == <<
      [k |-> "acq", l |-> "HTTP.getMessagesRequestsMu", m |-> "R", seg |-> 0, rs |-> {}, ws |-> {}],
      [k |-> "sec", l |-> "", m |-> "", seg |-> 5, rs |-> {"HTTP.getMessagesRequests", "HTTP.getMessagesRequests[]"}, ws |-> {}],
      [k |-> "rel", l |-> "HTTP.getMessagesRequestsMu", m |-> "", seg |-> 0, rs |-> {}, ws |-> {}]>>,
-   rall |-> {"HTTP.getMessagesRequests", "HTTP.getMessagesRequests[]", "HTTP.ircServerUnlocked", "HTTP.peerAddr", "IRCServer.Config", "IRCServer.Config[]", "IRCServer.channels", "IRCServer.channels[]", "IRCServer.lastProcessed", "IRCServer.sessions", "IRCServer.sessions[]", "IRCServer.svsholds", "IRCServer.svsholds[]", "Session.AwayMsg", "Session.Channels", "Session.Channels[]", "Session.Created", "Session.Id", "Session.LastActivity", "Session.LastNonPing", "Session.LastSolvedCaptcha", "Session.Nick", "Session.Operator", "Session.Pass", "Session.Realname", "Session.RemoteAddr", "Session.Server", "Session.Username", "Session.auth", "Session.deleted", "Session.invitedTo", "Session.invitedTo[]", "Session.ircPrefix", "Session.lastClientMessageId", "Session.loggedIn", "Session.modes", "Session.svid", "Session.throttlingExponent", "api.templates", "channel.bans", "channel.bans[]", "channel.key", "channel.modes", "channel.name", "channel.nicks", "channel.nicks[]", "channel.nicks[][]", "channel.topic", "channel.topicNick", "channel.topicTime"},
+   rall |-> {"HTTP.getMessagesRequests", "HTTP.getMessagesRequests[]", "HTTP.ircServerUnlocked", "HTTP.peerAddr", "IRCServer.Config", "IRCServer.Config[]", "IRCServer.channels", "IRCServer.channels[]", "IRCServer.lastProcessed", "IRCServer.sessions", "IRCServer.sessions[]", "IRCServer.svsholds", "IRCServer.svsholds[]", "IRCServer.svsholds[][]", "Session.AwayMsg", "Session.Channels", "Session.Channels[]", "Session.Created", "Session.Id", "Session.LastActivity", "Session.LastActivity[]", "Session.LastNonPing", "Session.LastNonPing[]", "Session.LastSolvedCaptcha", "Session.LastSolvedCaptcha[]", "Session.Nick", "Session.Operator", "Session.Pass", "Session.Realname", "Session.RemoteAddr", "Session.Server", "Session.Username", "Session.auth", "Session.deleted", "Session.invitedTo", "Session.invitedTo[]", "Session.ircPrefix", "Session.lastClientMessageId", "Session.loggedIn", "Session.modes", "Session.svid", "Session.throttlingExponent", "api.templates", "channel.bans", "channel.bans[]", "channel.key", "channel.modes", "channel.name", "channel.nicks", "channel.nicks[]", "channel.nicks[][]", "channel.topic", "channel.topicNick", "channel.topicTime", "channel.topicTime[]"},
    wall |-> {}],
   \* 34  (*api.HTTP).pingTicker
   [name |-> "HTTP.pingTicker", threads |-> {"http"}, steps |-> <<
@@ -547,8 +544,9 @@ OpsDef == <<
    rall |-> {"HTTP.ircServerUnlocked", "IRCServer.sessions", "IRCServer.sessions[]", "Session.Nick"},
    wall |-> {}],
   \* 36  (api.GetMessagesStats).StartedAndRelative
-  [name |-> "GetMessagesStats.StartedAndRelative", threads |-> {"http"}, steps |-> <<>>,
-   rall |-> {},
+  [name |-> "GetMessagesStats.StartedAndRelative", threads |-> {"http"}, steps |-> <<
+     [k |-> "sec", l |-> "", m |-> "", seg |-> 1, rs |-> {"GetMessagesStats.Started[]"}, ws |-> {}]>>,
+   rall |-> {"GetMessagesStats.Started[]"},
    wall |-> {}],
   \* 37  (*api.HTTP).ApplyMessageWait
   [name |-> "HTTP.ApplyMessageWait", threads |-> {"main"}, steps |-> <<
@@ -717,10 +715,10 @@ OpsDef == <<
      [k |-> "acq", l |-> "IRCServer.ConfigMu", m |-> "R", seg |-> 0, rs |-> {}, ws |-> {}],
      [k |-> "sec", l |-> "", m |-> "", seg |-> 1, rs |-> {"IRCServer.Config"}, ws |-> {}],
      [k |-> "acq", l |-> "IRCServer.sessionsMu", m |-> "R", seg |-> 0, rs |-> {}, ws |-> {}],
-     [k |-> "sec", l |-> "", m |-> "", seg |-> 2, rs |-> {"IRCServer.sessions", "IRCServer.sessions[]", "Session.LastActivity"}, ws |-> {}],
+     [k |-> "sec", l |-> "", m |-> "", seg |-> 2, rs |-> {"IRCServer.sessions", "IRCServer.sessions[]", "Session.LastActivity", "Session.LastActivity[]"}, ws |-> {}],
      [k |-> "rel", l |-> "IRCServer.sessionsMu", m |-> "", seg |-> 0, rs |-> {}, ws |-> {}],
      [k |-> "rel", l |-> "IRCServer.ConfigMu", m |-> "", seg |-> 0, rs |-> {}, ws |-> {}]>>,
-   rall |-> {"IRCServer.Config", "IRCServer.sessions", "IRCServer.sessions[]", "Session.LastActivity"},
+   rall |-> {"IRCServer.Config", "IRCServer.sessions", "IRCServer.sessions[]", "Session.LastActivity", "Session.LastActivity[]"},
    wall |-> {}],
   \* 57  (*ircserver.IRCServer).GetAuth
   [name |-> "IRCServer.GetAuth", threads |-> {"http"}, steps |-> <<
@@ -769,11 +767,11 @@ OpsDef == <<
      [k |-> "acq", l |-> "IRCServer.sessionsMu", m |-> "R", seg |-> 0, rs |-> {}, ws |-> {}],
      [k |-> "acq", l |-> "IRCServer.ConfigMu", m |-> "R", seg |-> 0, rs |-> {}, ws |-> {}],
      [k |-> "acq", l |-> "IRCServer.lastProcessedMu", m |-> "R", seg |-> 0, rs |-> {}, ws |-> {}],
-     [k |-> "sec", l |-> "", m |-> "", seg |-> 1, rs |-> {"IRCServer.Config", "IRCServer.Config[]", "IRCServer.channels", "IRCServer.channels[]", "IRCServer.lastProcessed", "IRCServer.sessions", "IRCServer.sessions[]", "IRCServer.svsholds", "IRCServer.svsholds[]", "Session.AwayMsg", "Session.Channels", "Session.Channels[]", "Session.Created", "Session.LastActivity", "Session.LastNonPing", "Session.LastSolvedCaptcha", "Session.Nick", "Session.Operator", "Session.Pass", "Session.Realname", "Session.RemoteAddr", "Session.Server", "Session.Username", "Session.auth", "Session.invitedTo", "Session.invitedTo[]", "Session.ircPrefix", "Session.lastClientMessageId", "Session.loggedIn", "Session.modes", "Session.svid", "Session.throttlingExponent", "channel.bans", "channel.bans[]", "channel.key", "channel.modes", "channel.name", "channel.nicks", "channel.nicks[]", "channel.nicks[][]", "channel.topic", "channel.topicNick", "channel.topicTime"}, ws |-> {}],
+     [k |-> "sec", l |-> "", m |-> "", seg |-> 1, rs |-> {"IRCServer.Config", "IRCServer.Config[]", "IRCServer.channels", "IRCServer.channels[]", "IRCServer.lastProcessed", "IRCServer.sessions", "IRCServer.sessions[]", "IRCServer.svsholds", "IRCServer.svsholds[]", "IRCServer.svsholds[][]", "Session.AwayMsg", "Session.Channels", "Session.Channels[]", "Session.Created", "Session.LastActivity", "Session.LastActivity[]", "Session.LastNonPing", "Session.LastNonPing[]", "Session.LastSolvedCaptcha", "Session.LastSolvedCaptcha[]", "Session.Nick", "Session.Operator", "Session.Pass", "Session.Realname", "Session.RemoteAddr", "Session.Server", "Session.Username", "Session.auth", "Session.invitedTo", "Session.invitedTo[]", "Session.ircPrefix", "Session.lastClientMessageId", "Session.loggedIn", "Session.modes", "Session.svid", "Session.throttlingExponent", "channel.bans", "channel.bans[]", "channel.key", "channel.modes", "channel.name", "channel.nicks", "channel.nicks[]", "channel.nicks[][]", "channel.topic", "channel.topicNick", "channel.topicTime", "channel.topicTime[]"}, ws |-> {}],
      [k |-> "rel", l |-> "IRCServer.lastProcessedMu", m |-> "", seg |-> 0, rs |-> {}, ws |-> {}],
      [k |-> "rel", l |-> "IRCServer.ConfigMu", m |-> "", seg |-> 0, rs |-> {}, ws |-> {}],
      [k |-> "rel", l |-> "IRCServer.sessionsMu", m |-> "", seg |-> 0, rs |-> {}, ws |-> {}]>>,
-   rall |-> {"IRCServer.Config", "IRCServer.Config[]", "IRCServer.channels", "IRCServer.channels[]", "IRCServer.lastProcessed", "IRCServer.sessions", "IRCServer.sessions[]", "IRCServer.svsholds", "IRCServer.svsholds[]", "Session.AwayMsg", "Session.Channels", "Session.Channels[]", "Session.Created", "Session.LastActivity", "Session.LastNonPing", "Session.LastSolvedCaptcha", "Session.Nick", "Session.Operator", "Session.Pass", "Session.Realname", "Session.RemoteAddr", "Session.Server", "Session.Username", "Session.auth", "Session.invitedTo", "Session.invitedTo[]", "Session.ircPrefix", "Session.lastClientMessageId", "Session.loggedIn", "Session.modes", "Session.svid", "Session.throttlingExponent", "channel.bans", "channel.bans[]", "channel.key", "channel.modes", "channel.name", "channel.nicks", "channel.nicks[]", "channel.nicks[][]", "channel.topic", "channel.topicNick", "channel.topicTime"},
+   rall |-> {"IRCServer.Config", "IRCServer.Config[]", "IRCServer.channels", "IRCServer.channels[]", "IRCServer.lastProcessed", "IRCServer.sessions", "IRCServer.sessions[]", "IRCServer.svsholds", "IRCServer.svsholds[]", "IRCServer.svsholds[][]", "Session.AwayMsg", "Session.Channels", "Session.Channels[]", "Session.Created", "Session.LastActivity", "Session.LastActivity[]", "Session.LastNonPing", "Session.LastNonPing[]", "Session.LastSolvedCaptcha", "Session.LastSolvedCaptcha[]", "Session.Nick", "Session.Operator", "Session.Pass", "Session.Realname", "Session.RemoteAddr", "Session.Server", "Session.Username", "Session.auth", "Session.invitedTo", "Session.invitedTo[]", "Session.ircPrefix", "Session.lastClientMessageId", "Session.loggedIn", "Session.modes", "Session.svid", "Session.throttlingExponent", "channel.bans", "channel.bans[]", "channel.key", "channel.modes", "channel.name", "channel.nicks", "channel.nicks[]", "channel.nicks[][]", "channel.topic", "channel.topicNick", "channel.topicTime", "channel.topicTime[]"},
    wall |-> {}],
   \* 63  (*ircserver.IRCServer).MaybeDeleteSession
   [name |-> "IRCServer.MaybeDeleteSession", threads |-> {"fsm"}, steps |-> <<
@@ -806,15 +804,15 @@ OpsDef == <<
   \* 67  (*ircserver.IRCServer).ProcessMessage
   [name |-> "IRCServer.ProcessMessage", threads |-> {"fsm"}, steps |-> <<
      [k |-> "acq", l |-> "IRCServer.sessionsMu", m |-> "W", seg |-> 0, rs |-> {}, ws |-> {}],
-     [k |-> "sec", l |-> "", m |-> "", seg |-> 1, rs |-> {"IRCServer.ServerCreation", "IRCServer.ServerPrefix", "IRCServer.ServerPrefix[]", "IRCServer.channels", "IRCServer.nicks", "IRCServer.serverSessions", "IRCServer.serverSessions[]", "IRCServer.sessions", "IRCServer.svsholds", "Session.Channels", "Session.Created", "Session.Id", "Session.LastActivity", "Session.LastNonPing", "Session.Server", "Session.auth", "Session.invitedTo", "channel.name", "channel.nicks", "ircCommand.Func", "ircCommand.MinParams", "ircserver.Commands", "ircserver.Commands[]", "ircserver.ErrSessionLimitReached", "ircserver.authOper", "ircserver.captchaChallengesSent", "ircserver.captchasFailed", "ircserver.captchasVerified", "ircserver.messagesProcessed", "ircserver.nickToLowerReplacer", "ircserver.validChannelRe", "ircserver.validNickRe", "modeCmd.Mode", "modeCmd.Param"}, ws |-> {"IRCServer.channels[]", "IRCServer.nicks[]", "IRCServer.sessions[]", "IRCServer.svsholds[]", "Session.AwayMsg", "Session.Channels[]", "Session.LastSolvedCaptcha", "Session.Nick", "Session.Operator", "Session.Pass", "Session.Realname", "Session.RemoteAddr", "Session.Username", "Session.deleted", "Session.invitedTo[]", "Session.ircPrefix", "Session.loggedIn", "Session.modes", "Session.svid", "channel.bans", "channel.bans[]", "channel.key", "channel.modes", "channel.nicks[]", "channel.nicks[][]", "channel.topic", "channel.topicNick", "channel.topicTime"}],
+     [k |-> "sec", l |-> "", m |-> "", seg |-> 1, rs |-> {"IRCServer.ServerCreation", "IRCServer.ServerCreation[]", "IRCServer.ServerPrefix", "IRCServer.ServerPrefix[]", "IRCServer.channels", "IRCServer.nicks", "IRCServer.serverSessions", "IRCServer.serverSessions[]", "IRCServer.sessions", "IRCServer.svsholds", "IRCServer.svsholds[][]", "Session.Channels", "Session.Created", "Session.Id", "Session.LastActivity", "Session.LastActivity[]", "Session.LastNonPing", "Session.LastNonPing[]", "Session.LastSolvedCaptcha[]", "Session.Server", "Session.auth", "Session.invitedTo", "channel.name", "channel.nicks", "channel.topicTime[]", "ircCommand.Func", "ircCommand.MinParams", "ircserver.Commands", "ircserver.Commands[]", "ircserver.ErrSessionLimitReached", "ircserver.authOper", "ircserver.captchaChallengesSent", "ircserver.captchasFailed", "ircserver.captchasVerified", "ircserver.messagesProcessed", "ircserver.nickToLowerReplacer", "ircserver.validChannelRe", "ircserver.validNickRe", "modeCmd.Mode", "modeCmd.Param"}, ws |-> {"IRCServer.channels[]", "IRCServer.nicks[]", "IRCServer.sessions[]", "IRCServer.svsholds[]", "Session.AwayMsg", "Session.Channels[]", "Session.LastSolvedCaptcha", "Session.Nick", "Session.Operator", "Session.Pass", "Session.Realname", "Session.RemoteAddr", "Session.Username", "Session.deleted", "Session.invitedTo[]", "Session.ircPrefix", "Session.loggedIn", "Session.modes", "Session.svid", "channel.bans", "channel.bans[]", "channel.key", "channel.modes", "channel.nicks[]", "channel.nicks[][]", "channel.topic", "channel.topicNick", "channel.topicTime"}],
      [k |-> "acq", l |-> "IRCServer.ConfigMu", m |-> "R", seg |-> 0, rs |-> {}, ws |-> {}],
-     [k |-> "sec", l |-> "", m |-> "", seg |-> 2, rs |-> {"IRCServer.Config", "IRCServer.Config[]", "IRCServer.ServerPrefix", "IRCServer.ServerPrefix[]", "IRCServer.channels", "IRCServer.channels[]", "IRCServer.nicks", "IRCServer.nicks[]", "Session.Channels", "Session.Channels[]", "Session.Id", "Session.LastActivity", "Session.Nick", "Session.Pass", "Session.Realname", "Session.Username", "Session.loggedIn", "Session.modes", "Session.svid", "channel.name", "channel.nicks", "channel.nicks[]", "channel.nicks[][]", "ircserver.nickToLowerReplacer"}, ws |-> {"IRCServer.serverSessions", "IRCServer.serverSessions[]", "Session.Server", "Session.ircPrefix"}],
+     [k |-> "sec", l |-> "", m |-> "", seg |-> 2, rs |-> {"IRCServer.Config", "IRCServer.Config[]", "IRCServer.ServerPrefix", "IRCServer.ServerPrefix[]", "IRCServer.channels", "IRCServer.channels[]", "IRCServer.nicks", "IRCServer.nicks[]", "Session.Channels", "Session.Channels[]", "Session.Id", "Session.LastActivity", "Session.LastActivity[]", "Session.Nick", "Session.Pass", "Session.Realname", "Session.Username", "Session.loggedIn", "Session.modes", "Session.svid", "channel.name", "channel.nicks", "channel.nicks[]", "channel.nicks[][]", "ircserver.nickToLowerReplacer"}, ws |-> {"IRCServer.serverSessions", "IRCServer.serverSessions[]", "Session.Server", "Session.ircPrefix"}],
      [k |-> "rel", l |-> "IRCServer.ConfigMu", m |-> "", seg |-> 0, rs |-> {}, ws |-> {}],
      [k |-> "acq", l |-> "IRCServer.ConfigMu", m |-> "W", seg |-> 0, rs |-> {}, ws |-> {}],
      [k |-> "sec", l |-> "", m |-> "", seg |-> 3, rs |-> {"IRCServer.Config", "IRCServer.ServerPrefix", "IRCServer.channels", "IRCServer.nicks", "IRCServer.serverSessions", "IRCServer.serverSessions[]", "IRCServer.sessions", "IRCServer.sessions[]", "Session.Channels", "Session.Channels[]", "Session.Id", "Session.Nick", "Session.Operator", "Session.RemoteAddr", "Session.invitedTo", "Session.ircPrefix", "channel.name", "channel.nicks", "ircserver.nickToLowerReplacer"}, ws |-> {"IRCServer.Config[]", "IRCServer.channels[]", "IRCServer.nicks[]", "Session.deleted", "Session.invitedTo[]", "channel.nicks[]"}],
      [k |-> "rel", l |-> "IRCServer.ConfigMu", m |-> "", seg |-> 0, rs |-> {}, ws |-> {}],
      [k |-> "rel", l |-> "IRCServer.sessionsMu", m |-> "", seg |-> 0, rs |-> {}, ws |-> {}]>>,
-   rall |-> {"IRCServer.Config", "IRCServer.Config[]", "IRCServer.ServerCreation", "IRCServer.ServerPrefix", "IRCServer.ServerPrefix[]", "IRCServer.channels", "IRCServer.channels[]", "IRCServer.nicks", "IRCServer.nicks[]", "IRCServer.serverSessions", "IRCServer.serverSessions[]", "IRCServer.sessions", "IRCServer.sessions[]", "IRCServer.svsholds", "Session.Channels", "Session.Channels[]", "Session.Created", "Session.Id", "Session.LastActivity", "Session.LastNonPing", "Session.Nick", "Session.Operator", "Session.Pass", "Session.Realname", "Session.RemoteAddr", "Session.Server", "Session.Username", "Session.auth", "Session.invitedTo", "Session.ircPrefix", "Session.loggedIn", "Session.modes", "Session.svid", "channel.name", "channel.nicks", "channel.nicks[]", "channel.nicks[][]", "ircCommand.Func", "ircCommand.MinParams", "ircserver.Commands", "ircserver.Commands[]", "ircserver.ErrSessionLimitReached", "ircserver.authOper", "ircserver.captchaChallengesSent", "ircserver.captchasFailed", "ircserver.captchasVerified", "ircserver.messagesProcessed", "ircserver.nickToLowerReplacer", "ircserver.validChannelRe", "ircserver.validNickRe", "modeCmd.Mode", "modeCmd.Param"},
+   rall |-> {"IRCServer.Config", "IRCServer.Config[]", "IRCServer.ServerCreation", "IRCServer.ServerCreation[]", "IRCServer.ServerPrefix", "IRCServer.ServerPrefix[]", "IRCServer.channels", "IRCServer.channels[]", "IRCServer.nicks", "IRCServer.nicks[]", "IRCServer.serverSessions", "IRCServer.serverSessions[]", "IRCServer.sessions", "IRCServer.sessions[]", "IRCServer.svsholds", "IRCServer.svsholds[][]", "Session.Channels", "Session.Channels[]", "Session.Created", "Session.Id", "Session.LastActivity", "Session.LastActivity[]", "Session.LastNonPing", "Session.LastNonPing[]", "Session.LastSolvedCaptcha[]", "Session.Nick", "Session.Operator", "Session.Pass", "Session.Realname", "Session.RemoteAddr", "Session.Server", "Session.Username", "Session.auth", "Session.invitedTo", "Session.ircPrefix", "Session.loggedIn", "Session.modes", "Session.svid", "channel.name", "channel.nicks", "channel.nicks[]", "channel.nicks[][]", "channel.topicTime[]", "ircCommand.Func", "ircCommand.MinParams", "ircserver.Commands", "ircserver.Commands[]", "ircserver.ErrSessionLimitReached", "ircserver.authOper", "ircserver.captchaChallengesSent", "ircserver.captchasFailed", "ircserver.captchasVerified", "ircserver.messagesProcessed", "ircserver.nickToLowerReplacer", "ircserver.validChannelRe", "ircserver.validNickRe", "modeCmd.Mode", "modeCmd.Param"},
    wall |-> {"IRCServer.Config[]", "IRCServer.channels[]", "IRCServer.nicks[]", "IRCServer.serverSessions", "IRCServer.serverSessions[]", "IRCServer.sessions[]", "IRCServer.svsholds[]", "Session.AwayMsg", "Session.Channels[]", "Session.LastSolvedCaptcha", "Session.Nick", "Session.Operator", "Session.Pass", "Session.Realname", "Session.RemoteAddr", "Session.Server", "Session.Username", "Session.deleted", "Session.invitedTo[]", "Session.ircPrefix", "Session.loggedIn", "Session.modes", "Session.svid", "channel.bans", "channel.bans[]", "channel.key", "channel.modes", "channel.nicks[]", "channel.nicks[][]", "channel.topic", "channel.topicNick", "channel.topicTime"}],
   \* 68  (*ircserver.IRCServer).SessionLimit
   [name |-> "IRCServer.SessionLimit", threads |-> {"fsm", "http"}, steps |-> <<
@@ -835,10 +833,10 @@ OpsDef == <<
      [k |-> "acq", l |-> "IRCServer.ConfigMu", m |-> "R", seg |-> 0, rs |-> {}, ws |-> {}],
      [k |-> "sec", l |-> "", m |-> "", seg |-> 1, rs |-> {"IRCServer.Config"}, ws |-> {}],
      [k |-> "acq", l |-> "IRCServer.sessionsMu", m |-> "W", seg |-> 0, rs |-> {}, ws |-> {}],
-     [k |-> "sec", l |-> "", m |-> "", seg |-> 2, rs |-> {"IRCServer.sessions", "IRCServer.sessions[]", "Session.LastActivity", "Session.Server"}, ws |-> {"Session.throttlingExponent"}],
+     [k |-> "sec", l |-> "", m |-> "", seg |-> 2, rs |-> {"IRCServer.sessions", "IRCServer.sessions[]", "Session.LastActivity", "Session.LastActivity[]", "Session.Server"}, ws |-> {"Session.throttlingExponent"}],
      [k |-> "rel", l |-> "IRCServer.sessionsMu", m |-> "", seg |-> 0, rs |-> {}, ws |-> {}],
      [k |-> "rel", l |-> "IRCServer.ConfigMu", m |-> "", seg |-> 0, rs |-> {}, ws |-> {}]>>,
-   rall |-> {"IRCServer.Config", "IRCServer.sessions", "IRCServer.sessions[]", "Session.LastActivity", "Session.Server"},
+   rall |-> {"IRCServer.Config", "IRCServer.sessions", "IRCServer.sessions[]", "Session.LastActivity", "Session.LastActivity[]", "Session.Server"},
    wall |-> {"Session.throttlingExponent"}],
   \* 71  (*ircserver.IRCServer).TrustedBridge
   [name |-> "IRCServer.TrustedBridge", threads |-> {"http"}, steps |-> <<
@@ -944,9 +942,9 @@ OpsDef == <<
   \* 81  (*raftstore.LevelDBStore).ConvertToProto
   [name |-> "LevelDBStore.ConvertToProto", threads |-> {"fsm"}, steps |-> <<
      [k |-> "acq", l |-> "LevelDBStore.mu", m |-> "W", seg |-> 0, rs |-> {}, ws |-> {}],
-     [k |-> "sec", l |-> "", m |-> "", seg |-> 1, rs |-> {"(*raftstore.LevelDBStore).ConvertToProto.start", "LevelDBStore.db", "LevelDBStore.dir"}, ws |-> {}],
+     [k |-> "sec", l |-> "", m |-> "", seg |-> 1, rs |-> {"(*raftstore.LevelDBStore).ConvertToProto.start", "(*raftstore.LevelDBStore).ConvertToProto.start[]", "LevelDBStore.db", "LevelDBStore.dir"}, ws |-> {}],
      [k |-> "rel", l |-> "LevelDBStore.mu", m |-> "", seg |-> 0, rs |-> {}, ws |-> {}]>>,
-   rall |-> {"(*raftstore.LevelDBStore).ConvertToProto.start", "LevelDBStore.db", "LevelDBStore.dir"},
+   rall |-> {"(*raftstore.LevelDBStore).ConvertToProto.start", "(*raftstore.LevelDBStore).ConvertToProto.start[]", "LevelDBStore.db", "LevelDBStore.dir"},
    wall |-> {}],
   \* 82  (*raftstore.LevelDBStore).DeleteRange
   [name |-> "LevelDBStore.DeleteRange", threads |-> {"fsm"}, steps |-> <<
